@@ -152,3 +152,51 @@ theorem null_entry_is_empty_entry (ft : FieldTable) (cfg : Cfg) :
   simp [Merge.interfaceInitializeEntryEffects, runEntryEffects, applyEntryEffect]
 
 end Mockery.Config
+
+namespace Mockery.Config
+open Mockery.Generated
+
+/-! ### `PackageConfig.Initialize`: one listed interface -/
+
+/-- the interface being initialised (`none`: `Name:` with a null value) and, once `Initialize` ran, its result -/
+structure PkgEntrySt where
+  cur : Option IfaceCfg
+  out : Option IfaceOut
+
+def applyPkgEntryEffect (ft : FieldTable) (pkgCfg : Cfg) (st : PkgEntrySt) : String → PkgEntrySt
+  | "iface := new" => { st with cur := some ⟨some [], []⟩ }
+  | "store iface" => st
+  | "iface.config := {}" => { st with cur := st.cur.map (fun ic => { ic with config := some [] }) }
+  | "merge package config into iface.config" =>
+    { st with cur := st.cur.map (fun ic => { ic with config := ic.config.map (mergeConfigs ft pkgCfg) }) }
+  | "initialize iface" =>
+    { st with out := st.cur.bind (fun ic => ic.config.map (fun c =>
+        if ic.configs.isEmpty then ⟨c, [c]⟩ else ⟨c, ic.configs.map (fun e => mergeConfigs ft c e)⟩)) }
+  | _ => st
+
+def runPkgEntry (ft : FieldTable) (pkgCfg : Cfg) (i : Option IfaceCfg) (effs : List String) : Option IfaceOut :=
+  (effs.foldl (applyPkgEntryEffect ft pkgCfg) ⟨i, none⟩).out
+
+/-- is the interface's `config` nil when the loop body tests it (a fresh `NewInterfaceConfig()` has one) -/
+def configIsNilAtTest : Option IfaceCfg → Bool
+  | none => false
+  | some ic => ic.config.isNone
+
+theorem initIface_translated (ft : FieldTable) (pkgCfg : Cfg) (i : Option IfaceCfg) :
+    runPkgEntry ft pkgCfg i (Merge.packageInitializeEntryEffects i.isNone (configIsNilAtTest i)) =
+      some (initIface ft pkgCfg i) := by
+  cases i with
+  | none => simp [Merge.packageInitializeEntryEffects, configIsNilAtTest, runPkgEntry, applyPkgEntryEffect, initIface]
+  | some ic =>
+    obtain ⟨c, es⟩ := ic
+    cases c with
+    | none =>
+      simp only [Merge.packageInitializeEntryEffects, configIsNilAtTest, runPkgEntry, applyPkgEntryEffect, initIface,
+        Option.isNone_some, Option.isNone_none, List.foldl, Option.map, Option.bind, Option.getD]
+      cases es <;> simp [applyPkgEntryEffect]
+    | some c =>
+      simp only [Merge.packageInitializeEntryEffects, configIsNilAtTest, runPkgEntry, applyPkgEntryEffect, initIface,
+        Option.isNone_some, List.foldl, Option.map, Option.bind, Option.getD]
+      cases es <;> simp [applyPkgEntryEffect]
+
+end Mockery.Config
